@@ -18,7 +18,7 @@ import (
 // model of the resumption policy (DESIGN.md Appendix D).
 
 var resFaults = []string{"rotate-keep-old", "rotate-drop-old", "restart-keep-key", "restart-lose-key", "change-suites", "change-client-auth", "disable-tickets", "enable-tickets", "evict-by-other-name", "other-server-shared-key", "other-server-own-key",
-	"change-max-version", "ticket-byte-flip", "ticket-truncated", "ticket-extended", "ticket-suite-not-offered", "ticket-genuine-via-reference-client", "ticket-from-dropped-key", "clock-jump"}
+	"change-max-version", "clone-config", "ticket-byte-flip", "ticket-truncated", "ticket-extended", "ticket-suite-not-offered", "ticket-genuine-via-reference-client", "ticket-from-dropped-key", "clock-jump"}
 var resReach = []string{"resumed", "full-handshake", "resumed-with-old-key-ticket-refreshed", "fallback-after-rotation", "fallback-after-restart", "fallback-suite-change", "fallback-client-auth", "fallback-tickets-off", "fallback-evicted", "fallback-forged-ticket", "completeness-checked", "soundness-checked", "master-equal-checked", "wire-decoded-resumed", "gm-mode", "tls-mode", "client-cert-in-ticket", "history>=4"}
 
 func init() {
@@ -529,7 +529,7 @@ func runResumption(c *simkit.Choice, r *simkit.Rec) {
 		for step := 0; step < nops && !violated() && r.HarnessErr == ""; step++ {
 			fixSuites()
 			sv := srvs[c.Choose(len(srvs), simkit.LOp)]
-			op := c.Weighted([]int{10, 2, 2, 2, 2, 2, 1, 3, 3, 1, 2}, simkit.LOp)
+			op := c.Weighted([]int{10, 3, 2, 2, 2, 2, 1, 3, 3, 1, 2, 2}, simkit.LOp)
 			if step == 0 {
 				op = 0
 			}
@@ -666,6 +666,10 @@ func runResumption(c *simkit.Choice, r *simkit.Rec) {
 				if len(ticket) > 0 || !forged {
 					judge(step, sv, out, true, forged, offer, "server.sim")
 				}
+			case 11: // the server continues with a Clone of its configuration: nothing may change
+				sv.cfg = sv.cfg.Clone()
+				r.Fault(idx(resFaults, "clone-config"))
+				history = append(history, fmt.Sprintf("clone(%s)", sv.name))
 			case 10: // version cap (TLS mode): a ticket of another version must not be resumed
 				if gm {
 					continue
